@@ -68,3 +68,37 @@ Theorem C02_frontend_request_carries_callers_values : forall name, In name fe_op
   forall s a data fds regions q, args_wf name a data regions -> sends_spec s name a data fds regions q.
 Proof. exact frontend_transmits_spec. Qed.
 Print Assumptions C02_frontend_request_carries_callers_values.
+
+(* further end-to-end statements over the two models and the regenerated codecs *)
+Theorem C02_set_vring_addr_end_to_end : forall cfg s o idx flags d u av lg fl,
+  idx < 2 ^ 32 -> flags < 2 -> d < 2 ^ 64 -> u < 2 ^ 64 -> av < 2 ^ 64 -> lg < 2 ^ 64 -> req_flags_ok fl ->
+  let v := {| VhostUserVringAddr_index := idx; VhostUserVringAddr_flags := flags; VhostUserVringAddr_descriptor := d;
+              VhostUserVringAddr_used := u; VhostUserVringAddr_available := av; VhostUserVringAddr_log := lg |} in
+  VhostUserVringAddr_is_valid v = true ->
+  o_calls (snd (dispatch cfg s o (VhostUserMsgHeader_new R FrontendReq_SET_VRING_ADDR fl 40) None 40 (VhostUserVringAddr_write v)))
+  = [call "set_vring_addr" [VN idx; VN flags; VN d; VN u; VN av; VN lg]].
+Proof. exact set_vring_addr_end_to_end. Qed.
+Print Assumptions C02_set_vring_addr_end_to_end.
+Theorem C02_get_vring_base_end_to_end : forall cfg s o idx fl,
+  idx < 2 ^ 32 -> req_flags_ok fl ->
+  o_calls (snd (dispatch cfg s o (VhostUserMsgHeader_new R FrontendReq_GET_VRING_BASE fl 8) None 8
+                         (VhostUserVringState_write {| VhostUserVringState_index := idx; VhostUserVringState_num := 0 |})))
+  = [call "get_vring_base" [VN idx]].
+Proof. exact get_vring_base_end_to_end. Qed.
+Print Assumptions C02_get_vring_base_end_to_end.
+Theorem C02_set_vring_enable_end_to_end : forall cfg s o idx en fl,
+  idx < 2 ^ 32 -> en < 2 -> req_flags_ok fl ->
+  check_virtio s VhostUserVirtioFeatures_PROTOCOL_FEATURES = ROk tt ->
+  o_calls (snd (dispatch cfg s o (VhostUserMsgHeader_new R FrontendReq_SET_VRING_ENABLE fl 8) None 8
+                         (VhostUserVringState_write {| VhostUserVringState_index := idx; VhostUserVringState_num := en |})))
+  = [call "set_vring_enable" [VN idx; VN en]].
+Proof. exact set_vring_enable_end_to_end. Qed.
+Print Assumptions C02_set_vring_enable_end_to_end.
+Theorem C02_set_vring_fd_end_to_end : forall cfg s o code name idx f fl,
+  (code = FrontendReq_SET_VRING_CALL /\ name = "set_vring_call"%string) \/ (code = FrontendReq_SET_VRING_KICK /\ name = "set_vring_kick"%string)
+  \/ (code = FrontendReq_SET_VRING_ERR /\ name = "set_vring_err"%string) ->
+  idx < 256 -> req_flags_ok fl ->
+  o_calls (snd (dispatch cfg s o (VhostUserMsgHeader_new R code fl 8) (Some [f]) 8 (VhostUserU64_write {| VhostUserU64_value := idx |})))
+  = [call name [VN idx; vfds [f]]].
+Proof. exact set_vring_fd_end_to_end. Qed.
+Print Assumptions C02_set_vring_fd_end_to_end.
